@@ -40,3 +40,5 @@ CLAIMS['C03'] = ('other', 'proved: ComposeEdif._get_wire_index_ (the bit index t
                  'bounded: canon(parse(compose(n))) == canon(n) over seeded designs, reader-produced netlists and bundled files', _MIX + '; ' + _BN, _MT, 'DESIGN.md 0.1, 6/C03')
 CLAIMS['C04'] = ('other', 'proved: Composer._index_of_wire_in_cable (the bit index the Verilog writer emits for a wire) == position in its cable + lower_index, never None for a wire of a cable, for all heaps satisfying Inv; '
                  'bounded: canon(parse(compose(t(parse(f))))) == canon(t(parse(f))) for t in none/clone/uniquify/flatten over seeded designs and bundled files', _MIX + '; ' + _BN, _MT, 'DESIGN.md 0.1, 6/C04')
+CLAIMS['C06'] = ('other', 'proved: VerilogParser.populate_new_cable / populate_new_port turn a declaration [l:r] into exactly |l-r|+1 wires / pins with lower_index min(l, r) and is_downto iff r <= l (one bit otherwise), for all integer bounds and all heaps satisfying Inv; '
+                 'bounded: parsed structure against an independent Verilog renderer over seeded designs and bundled files', _MIX + '; ' + _BN, _MT, 'DESIGN.md 0.1, 6/C06')
